@@ -89,6 +89,9 @@ func (x xmlExporter) Map(m value.Map) MapExporter {
 func isSimpleMap(m value.Map) bool {
 	isSimple := true
 	m.Iter(func(key string, e value.Value) bool {
+		if !isAttrName(key) {
+			isSimple = false
+		}
 		if _, ok := e.ToMap(); ok {
 			isSimple = false
 		}
@@ -101,6 +104,32 @@ func isSimpleMap(m value.Map) bool {
 		return true
 	})
 	return isSimple
+}
+
+// isAttrName reports whether a map key can be written as the name of an XML attribute: a plain
+// ASCII XML name without a colon that does not start with the reserved prefix "xml". Maps with any
+// other key (blanks, quotes, '=', empty, ...) are written in the <entry key="..."> form, where the
+// key is an escaped attribute value.
+func isAttrName(key string) bool {
+	if key == "" {
+		return false
+	}
+	for i := 0; i < len(key); i++ {
+		c := key[i]
+		switch {
+		case c >= 'a' && c <= 'z', c >= 'A' && c <= 'Z', c == '_':
+		case c >= '0' && c <= '9', c == '-', c == '.':
+			if i == 0 {
+				return false
+			}
+		default:
+			return false
+		}
+	}
+	if len(key) >= 3 && (key[0] == 'x' || key[0] == 'X') && (key[1] == 'm' || key[1] == 'M') && (key[2] == 'l' || key[2] == 'L') {
+		return false
+	}
+	return true
 }
 
 func (x xmlExporter) Custom(value.Value) (bool, error) {
